@@ -87,7 +87,8 @@ def check (prop : String) (input impl : String) : Verdict :=
           let specs := specsL roots
           let emitted := ((kvGet itoks "emitted") >>= (·.toNat?)).getD 0
           let run : RunObs := { nodes := specs.map (fun s => (s.idx, parseNodeObs itoks s.idx)), emitted := emitted,
-                                returned := kvGet itoks "returned" == some "1", seqReturn := ((kvGet itoks "ret") >>= (·.toNat?)).getD 0 }
+                                returned := kvGet itoks "returned" == some "1", seqReturn := ((kvGet itoks "ret") >>= (·.toNat?)).getD 0,
+                                progress := kvGet itoks "progress" != some "0" }
           let viols := (judge harnessOracle roots stream run).filter (fun v => v.prop == prop)
           -- prediction (only when nothing in the tree may discard): the denotational flow of what was emitted
           let predictable := !anyDiscard specs
@@ -108,6 +109,7 @@ def check (prop : String) (input impl : String) : Verdict :=
             (if accounts.any (fun a => a.failed > 0) then ["failures"] else []) ++
             (if roots.length > 1 then ["multi-root"] else []) ++
             (if emitted < n then ["stopped-early"] else []) ++
+            (if (kvGet itoks "progress").isSome then ["gated-discarding-node"] else []) ++
             (if specs.length > 6 then ["big-tree"] else [])
           { model := if predictable then modelView else implView, implView := some implView,
             spec := viols.head?.map (·.clause), tags := tags }
